@@ -101,11 +101,30 @@ Definition desc_of (oracle : list arg) (b : pblock) : result info :=
   | None => Err "oracle-missing"
   end.
 
+(* a block of the layout, as the theorems of Props/C06.v write it down *)
+Definition ablock_of_arg (it : arg) : ablock :=
+  mkablock (arg_bytes (arg_nth 2 it)) (map arg_bytes (arg_list (arg_nth 4 it))) (arg_bytes (arg_nth 3 it))
+           (arg_nat (arg_nth 6 it)) (arg_bool (arg_nth 5 it)) (arg_bool (arg_nth 7 it)).
+
+(* the file is the concatenation of the items' texts, and the text of every block is its armor *)
 Definition render_ok_pem (layout : arg) (data : bytes) : bool :=
   match layout with
-  | AL [AL items] => bytes_eqb (concat (map (fun it => arg_bytes (arg_nth 1 it)) items)) data
+  | AL [AL items] =>
+      bytes_eqb (concat (map (fun it => arg_bytes (arg_nth 1 it)) items)) data
+      && forallb (fun it => negb (arg_Z (arg_nth 0 it) =? 0)%Z
+                            || bytes_eqb (armor (ablock_of_arg it)) (arg_bytes (arg_nth 1 it))) items
   | _ => true
   end.
+
+(* the model of encoding/pem.Decode (Model/Pem.v) against the real decoder, at every "-----BEGIN " of the data *)
+Definition dec_agrees (oracle : list arg) (data : bytes) : bool :=
+  forallb (fun row =>
+             match arg_nth 1 row, pem_dec (lastn (arg_nat (arg_nth 0 row)) data) with
+             | AL [AB t; AB b; k], Some (blk, r') =>
+                 bytes_eqb t (pb_type blk) && bytes_eqb b (pb_bytes blk) && Nat.eqb (arg_nat k) (length r')
+             | AL [], None => true
+             | _, _ => false
+             end) oracle.
 
 (* the pem.Decode hypothesis of C06_pem_bundle, sampled: at the start of every well-formed block of the
    layout, Decode returns that block and exactly what follows its armor *)
@@ -130,11 +149,14 @@ Definition pem_hyp_ok (dec : bytes -> option (pblock * bytes)) (layout : arg) (d
   | _ => true
   end.
 
+(* PEMFile is computed with the modelled decoder; the recorded answers of the real one only serve to
+   compare the two decoders (dec_agrees) and to re-evaluate the old sampled hypothesis (pem_hyp_ok) *)
 Definition run_pem (input : arg) : arg :=
   let data := arg_bytes (arg_nth 1 input) in
-  let mine := pem_file (dec_of (arg_list (arg_nth 2 input))) (desc_of (arg_list (arg_nth 3 input))) data in
+  let mine := pem_file pem_dec (desc_of (arg_list (arg_nth 3 input))) data in
   out3 mine (arg_list (arg_nth 4 input)) [bs "PEMFile"]
-       (render_ok_pem (arg_nth 5 input) data && pem_hyp_ok (dec_of (arg_list (arg_nth 2 input))) (arg_nth 5 input) data).
+       (render_ok_pem (arg_nth 5 input) data && pem_hyp_ok (dec_of (arg_list (arg_nth 2 input))) (arg_nth 5 input) data
+        && dec_agrees (arg_list (arg_nth 2 input)) data).
 
 (* ---------- keystores ---------- *)
 Definition secret_of (oracle : list arg) (off : N) (rest : bytes) : result (N * bytes * bytes) :=
